@@ -56,7 +56,15 @@ func VerifH_C15_HOF() {
 		in = fs[0] // a non-array argument counts as a one-member array
 	}
 	doc := map[string]interface{}{"a": in}
-	which := verifChoose(9)
+	which := verifChoose(10)
+	if which == 9 {
+		// an empty array literal (unlike an empty input member) is a value: the seed is returned and
+		// the function is never called
+		seed := hFinite()
+		c15ExpectNumber(hEval(`$reduce([], function($x,$y){$x.nope.(1/0)}, s)`, map[string]interface{}{"s": seed}), seed, "reduce-empty-returns-seed")
+		verifAssert(hEval(`$reduce([], function($x,$y){$x + $y})`, doc).kind == oUndefined, "reduce-empty-unseeded-no-value")
+		return
+	}
 	if n == 0 && which >= 5 {
 		// an empty array input is 'no value' (C01), and a missing first argument makes these
 		// functions yield no value before they look at the function argument
@@ -236,7 +244,8 @@ func VerifH_C15_Aggregates() {
 	which := verifChoose(5)
 	if which == 4 {
 		// non-numeric members are an error
-		bad := []interface{}{hFinite(), "x"}
+		bads := [][]interface{}{{hFinite(), "x"}, {"x", hFinite()}, {"x"}, {true}, {"5", 1.0, 2.0}, {map[string]interface{}{"a": 1.0}, 3.0}, {1.0, 2.0, []interface{}{3.0}}, {hFinite(), true, 0.0}}
+		bad := bads[verifChoose(len(bads))]
 		f := []string{"$sum(a)", "$max(a)", "$min(a)", "$average(a)"}[verifChoose(4)]
 		got := hEval(f, map[string]interface{}{"a": bad})
 		verifAssert(got.kind == oOtherError, "aggregate-non-numeric-is-error")
